@@ -574,7 +574,106 @@ def c15(ctx):
     ctx.assumptions += X_ASSUMPTIONS
 
 
+# ---------------------------------------------------------------- C16
+INTO_TYPES = ['u8', 'u16', 'u32', 'u64']
+HANDLER_ORDER = ["Debug", "Clone", "Copy", "PartialEq", "Eq", "PartialOrd", "Ord", "Hash", "Default", "Deref", "DerefMut", "Into"]
+
+
+def render_c16_input(inp, k):
+    ts = [INTO_TYPES[i] for i, b in enumerate(inp['targets']) if b]
+    others = [HANDLER_ORDER[i] for i, b in enumerate(inp['others']) if b]
+    # the attribute order is varied with k; the expansion must not depend on anything but the input itself
+    metas = others + ['Into(%s)' % t for t in ts]
+    if k % 2 == 1:
+        metas = list(reversed(metas))
+    attr = '#[educe(%s)]' % ', '.join(metas)
+    fields = 'a: u8, b: u16, c: u32, d: u64'
+    if inp['kind'] == 'struct':
+        return '%s struct T { %s }' % (attr, fields)
+    return '%s enum T { V1 { %s }, V2(u8, u16, u32, u64) }' % (attr, fields)
+
+
+def c16(ctx):
+    quick = ctx.tier == 'quick'
+    inputs = model_check_tagged(ctx, [{'module': 'MC_C16', 'cfg': 'MC_C16_quick.cfg', 'workers': 4}], 'INPUT')
+    uniq = []
+    seen = set()
+    for i in inputs:
+        key = json.dumps(i, sort_keys=True)
+        if key not in seen:
+            seen.add(key)
+            uniq.append(i)
+    st0 = dict(ctx.coverage)
+    # the model's own regression test: iterating a hash map (any permutation) must be caught by TLC
+    neg = tlcmod.run_mc('MC_C16', 'MC_C16_hashed.cfg', ctx.workdir, workers=2, timeout=300, tags=('INPUT',), heap='2g')
+    if neg['violated'] != 'Deterministic':
+        raise ToolError('MC_C16_hashed.cfg should violate Deterministic (regression test of the model), got: %s' % neg['violated'])
+    sites = model_check_tagged(ctx, [{'module': 'MC_C14', 'cfg': 'MC_C14_quick.cfg' if quick else 'MC_C14_thorough.cfg', 'workers': 8, 'timeout': 3000}], 'SITES')
+    ctx.coverage['states'] += st0['states']
+    ctx.coverage['transitions'] += st0['transitions']
+    ctx.coverage['mc_runs'] = st0['mc_runs'] + ctx.coverage['mc_runs']
+    ctx.coverage['model_regression'] = 'MC_C16_hashed.cfg violates Deterministic as expected (two Into targets, hash-map iteration order)'
+    exe = xchan.build(ctx)
+    texts = []
+    for n, inp in enumerate(uniq):
+        for k in (0, 1):
+            texts.append(('into%d.%d' % (n, k), render_c16_input(inp, k)))
+    for ci, rec in enumerate(sites, 1):
+        r = MultiRender(ci, rec['cfg'], 'C16', canonical=False, name='T')
+        texts.append(('multi%d' % ci, r.item(derive=False)))
+    meta = {}
+    for tid, text in texts:
+        meta[tid] = {'mode': 'same', 'g': tid}
+    base = [{'id': tid, 'text': text} for tid, text in texts]
+    nproc = 4 if quick else 16
+    passes = [[dict(r, reps=3) for r in base]]
+    for p in range(nproc):
+        order = list(base)
+        if p % 2 == 1:
+            order.reverse()
+        rot = (p * 37) % max(1, len(order))
+        passes.append(order[rot:] + order[:rot])
+    from concurrent.futures import ThreadPoolExecutor
+    with ThreadPoolExecutor(max_workers=min(8, len(passes))) as ex:
+        results = list(ex.map(lambda reqs: xchan.expand1(exe, reqs), passes))
+    trace = os.path.join(ctx.workdir, 'xtrace.ndjson')
+    raw = []
+    with open(trace, 'w') as f:
+        for pi, recs in enumerate(results):
+            for r in recs:
+                e = {'ev': 'expand', 'id': r['id'], 'proc': pi, 'rep': r.get('rep', 0), 'outcome': r['outcome'],
+                     'out': xpipe.digest(r['out']) if r.get('out') is not None else '', 'mode': 'same', 'g': r['id'], 'expect': '', 'reset': False}
+                f.write(json.dumps(e, separators=(',', ':')) + '\n')
+                raw.append((pi, r))
+    res = xpipe.validate(ctx, trace)
+    lines = rpipe.load_lines(trace, res['bad'])
+    textmap = dict(texts)
+    done = set()
+    for ln in res['bad']:
+        e = lines[ln]
+        if e['id'] in done:
+            continue
+        done.add(e['id'])
+        outs = [{'proc': pi, 'rep': r.get('rep', 0), 'outcome': r['outcome'], 'out': r.get('out')} for pi, r in raw if r['id'] == e['id']]
+        distinct = sorted({o['out'] or o['outcome'] for o in outs})
+        ctx.violation({'kind': 'nondeterministic-expansion', 'input': textmap[e['id']]},
+                      {'what': 'the same input expanded to different token streams (or was not accepted) across repetitions / processes',
+                       'input': textmap[e['id']], 'distinct_outputs': distinct[:6], 'observations': len(outs)})
+    ctx.coverage.update({
+        'traces_validated_against_impl': 1, 'trace_events': res['n'], 'trace_events_rejected': len(res['bad']),
+        'programs': len(texts), 'evaluations': res['n'], 'distinct_nontrivial': len(texts),
+        'processes': nproc + 1, 'repetitions_in_process': 3,
+        'rule': 'inputs: every subset of four Into targets x {struct, enum} x {no other trait, Debug+Clone} in two attribute orders (from MC_C16), plus every multi-trait '
+                'configuration of the C14 model with mixed spellings; each input expanded 3 times in one process and once in each of several freshly spawned processes '
+                '(different hash seeds, different prior history: forward / reversed / rotated order); all token streams of one input must be equal; '
+                'distinct_nontrivial = number of distinct inputs',
+        'samples': [{'input': texts[5][1]}, {'input': texts[-1][1]}],
+    })
+    ctx.assumptions += X_ASSUMPTIONS
+
+
 REGISTRY = {
+    'C16': c16,
     'C15': c15,
     'C14': c14,
     'C20': c20,
